@@ -29,7 +29,9 @@ A(S)   == S.in.amt
 Esc(S) == Escrow(S.in.chan)
 Route(S) == PidOf(S.in.fw.pid)
 Dst(S)   == <<PidOf(S.in.fw.pid), CpOf(S.in.fw)>>
-Delta(S, a, d) == S.post.bal[a][d] - S.pre.bal[a][d]
+\* (total: a recipient spelling the specification holds invalid - which the code should have refused -
+\* names no tracked account; its delta counts as 0 and conservation then fails, as it should)
+Delta(S, a, d) == IF a \in Acct THEN S.post.bal[a][d] - S.pre.bal[a][d] ELSE 0
 Burn(S, d) == S.pre.supply[d] - S.post.supply[d]
 
 HasSwap(S) == \E i \in DOMAIN S.in.acts : ActOf(S.in.acts[i].id) = "SWAP"
@@ -76,7 +78,7 @@ Prop_C02(S) == IsTransfer(S) =>
   /\ Delta(S, "dust", D(S)) >= S.pre.bal["orb"][D(S)]
   /\ ("dust" \notin FeeRcpts(S) \cup Sink(S) => Delta(S, "dust", D(S)) = S.pre.bal["orb"][D(S)])
   /\ \A a \in Acct \ Touched(S), x \in Denom : S.post.bal[a][x] = S.pre.bal[a][x]
-  /\ \A a \in Touched(S), x \in Denom \ {D(S), OutDenom(S)} : S.post.bal[a][x] = S.pre.bal[a][x]
+  /\ \A a \in Touched(S) \cap Acct, x \in Denom \ {D(S), OutDenom(S)} : S.post.bal[a][x] = S.pre.bal[a][x]
   /\ S.othersSame
   /\ \A x \in Denom : /\ SumOverAccts(S, x) = -Burn(S, x)           \* ledger consistent with supply
                       /\ (Route(S) # "CCTP" \/ x # OutDenom(S) => Burn(S, x) = 0)
@@ -96,6 +98,16 @@ ActEffect(a, c) == IF ActOf(a.id) = "FEE" THEN [d |-> c.d, n |-> c.n - FeeTotal(
                    ELSE [d |-> "uswap", n |-> SwapOut(a, c.n)]
 Prop_C06(S) ==
   /\ (IsOrbiterPacket(S) /\ S.in.mk = "PAYLOAD" /\ ParseOK(S.in) /\ RepeatsAction(S.in) => ~S.ok)
+  \* whatever the final outcome: the actions that were entered are a prefix of the payload's list, in
+  \* order, the first sees the delivered coin, each sees what its predecessor left, and every action
+  \* that did not fail left exactly its effect on the coin it saw
+  /\ (HasActions(S) /\ S.hasTrace /\ ~S.panic /\ AmtKind(S.in) = "num" =>
+        LET t == S.perAction  n == Len(S.in.acts) IN
+        /\ Len(t) <= n
+        /\ \A i \in DOMAIN t : t[i].id = ActOf(S.in.acts[i].id)
+        /\ (Len(t) >= 1 => t[1].cin = [d |-> D(S), n |-> A(S)])
+        /\ \A i \in 1..(Len(t) - 1) : ~t[i].err /\ t[i + 1].cin = t[i].cout
+        /\ \A i \in DOMAIN t : ~t[i].err => t[i].cout = ActEffect(S.in.acts[i], t[i].cin))
   /\ (HasActions(S) /\ S.ok /\ S.hasTrace =>
         LET t == S.perAction  n == Len(S.in.acts) IN
         /\ Len(t) = n
@@ -120,7 +132,7 @@ Prop_C04(S) == HasFee(S) /\ AmtKind(S.in) = "num" =>
         /\ TheFee(S).at = "FEE" /\ ~FeeRefused(A(S), fs)
         /\ \A r \in Acct \ ({"orb", "dust", Esc(S)} \cup Sink(S)) : Delta(S, r, D(S)) = CreditsOf(A(S), fs)[r]
         /\ Delta(S, "dust", D(S)) = CreditsOf(A(S), fs)["dust"] + S.pre.bal["orb"][D(S)]
-        /\ LedgerForwarded(S) = A(S) - FeeTotal(A(S), fs) + (IF Route(S) = "INT" THEN CreditsOf(A(S), fs)[RcptAcct(S.in.fw.to)] ELSE 0))
+        /\ LedgerForwarded(S) = A(S) - FeeTotal(A(S), fs) + (IF Route(S) = "INT" /\ RcptAcct(S.in.fw.to) \in Acct THEN CreditsOf(A(S), fs)[RcptAcct(S.in.fw.to)] ELSE 0))
   /\ (TheFee(S).at = "FEE" /\ ~FeeRefused(A(S), fs) /\ S.ctl.noacts.run /\ S.ctl.noacts.ok
         /\ CleanEnv(S.pre) /\ S.pre.pAct = {} /\ "orb" \notin FeeRcpts(S) => S.ok)
 
@@ -153,13 +165,20 @@ Prop_C04big(S) == IsBig(S) /\ FeeActs(S) # {} =>
 \* conservation at full precision: escrow releases A = credits + forwarded, nothing stays
 Prop_C02big(S) == IsBig(S) /\ S.ok =>
   /\ BEq(S.big.esc, S.in.amtd)
-  /\ BEq(BAdd(BAdd(S.big.F1, S.big.F2), BAdd(S.big.U, S.big.dust)), S.in.amtd)
+  /\ BEq(BAdd(BAdd(S.big.F1, S.big.F2), BAdd(S.big.U, S.big.dust)), BAdd(S.in.amtd, S.big.orbPre))
   /\ BIsZero(S.big.orb) /\ ~BIsZero(S.big.U)
 
 \* full-precision amounts (outside Apply's integers): a success acknowledgement only after every fund
 \* movement of the transfer has completed - nothing of it is left on the orbiter account and the
 \* destination was credited (e.g. when a statistics update fails on a saturated route)
 Prop_C03big(S) == IsBig(S) /\ S.ok => BIsZero(S.big.orb) /\ ~BIsZero(S.big.U)
+
+\* a pre-existing balance beyond 64 bits in the transferred denom: swept to the dust collector, exactly,
+\* never blocking the transfer (the comparison with the emptied account is Prop_C11's first conjunct)
+Prop_C11big(S) == IsBig(S) /\ ~BIsZero(S.big.orbPre) =>
+  /\ ~S.panic
+  /\ (S.ok => /\ BIsZero(S.big.orb)
+              /\ BEq(S.big.dust, BAdd(S.big.orbPre, IF FeeActs(S) = {} THEN BZero ELSE BigCredit(S.in.amtd, TheFee(S).fees, "dust"))))
 
 (* C05 The outgoing bridge request carries exactly the user's route and parameters *)
 PostActionCoin(S) == IF FeeActs(S) # {} /\ ~HasSwap(S)
